@@ -231,9 +231,13 @@ theorem equal_iff (p o : PortSet) : p.equal o = true ↔ p = o := by
   cases p; cases o
   simp [equal, CSet.equal, and_assoc]
 
-theorem isAll_iff (p : PortSet) : p.isAll = true ↔ p = mk' true := by
-  unfold isAll
-  exact equal_iff p _
+/-- `IsAll`: full numeric range and no excluded named port; the named ports held do not matter -/
+theorem isAll_iff (p : PortSet) : p.isAll = true ↔ p.ports = [⟨1, 65535⟩] ∧ p.excluded = [] := by
+  unfold isAll CSet.equal
+  rw [Bool.and_eq_true, decide_eq_true_eq, List.isEmpty_iff]
+  exact Iff.rfl
+
+theorem isAll_mk'_true : (mk' true).isAll = true := rfl
 
 theorem mk'_true : mk' true = ⟨[⟨1, 65535⟩], [], []⟩ := rfl
 
@@ -422,9 +426,12 @@ theorem wf_of_entries {c : ConnSet} (ha : c.allowAll = false)
 
 /-! ### `checkIfAll` -/
 
+/-- the three entries are present, each with the full numeric range and no excluded named port
+(whatever named ports they hold) -/
 theorem isAllWithoutAllowAll_iff (c : ConnSet) :
     c.isAllWithoutAllowAll = true ↔
-      c.allowAll = false ∧ ∀ pr, c.get pr = some (PortSet.mk' true) := by
+      c.allowAll = false ∧
+        ∀ pr, ∃ ps, c.get pr = some ps ∧ ps.ports = [⟨1, 65535⟩] ∧ ps.excluded = [] := by
   unfold isAllWithoutAllowAll
   split
   · rename_i h; simp [h]
@@ -437,8 +444,9 @@ theorem isAllWithoutAllowAll_iff (c : ConnSet) :
 theorem den_full_entries {c : ConnSet} (h : c.isAllWithoutAllowAll = true) (pr : Proto) (p : Int) :
     c.den pr p ↔ inRange p := by
   rw [isAllWithoutAllowAll_iff] at h
-  rw [den_of_not_allowAll h.1, h.2 pr]
-  simp [PortSet.mk'_true, memL_full]
+  obtain ⟨ps, hg, hp, _⟩ := h.2 pr
+  rw [den_of_not_allowAll h.1, hg]
+  simp [hp, memL_full]
 
 theorem den_checkIfAll (c : ConnSet) (pr : Proto) (p : Int) :
     c.checkIfAll.den pr p ↔ c.den pr p := by
@@ -845,7 +853,7 @@ theorem canonical_inter {c o : ConnSet} (hc : c.Canonical) (ho : o.Canonical) :
       have : c.isAllWithoutAllowAll = true := by
         rw [isAllWithoutAllowAll_iff]
         refine ⟨ha, fun pr => ?_⟩
-        have h3 := hi.2 pr
+        obtain ⟨rs, h3, hr1, hr2⟩ := hi.2 pr
         rw [get_mapProtos] at h3
         split at h3
         · cases h3
@@ -857,24 +865,18 @@ theorem canonical_inter {c o : ConnSet} (hc : c.Canonical) (ho : o.Canonical) :
             split at h3
             · cases h3
             · have e := Option.some.inj h3
+              subst e
               have hw := hc.1.entry h4
-              rw [h4]
-              cases ports with
-              | mk pp nm ex =>
-                simp only [PortSet.inter, PortSet.mk'_true, PortSet.mk.injEq] at e
-                obtain ⟨e1, e2, e3⟩ := e
-                subst e2 e3
-                have : pp = [⟨1, 65535⟩] := by
-                  apply eq_full_of_mem hw.canon
-                  intro x
-                  constructor
-                  · exact hw.range
-                  · intro hx
-                    have := (memL_full x).mpr hx
-                    rw [← e1, mem_inter] at this
-                    exact this.1
-                rw [this]
-                rfl
+              -- `inter` keeps the named / excluded ports of the receiver
+              refine ⟨ports, h4, ?_, hr2⟩
+              apply eq_full_of_mem hw.canon
+              intro x
+              constructor
+              · exact hw.range
+              · intro hx
+                have := (memL_full x).mpr hx
+                rw [← hr1] at this
+                exact ((mem_inter _ _ x).mp this).1
       rw [hc.2] at this
       exact absurd this (by decide)
 
@@ -905,7 +907,7 @@ theorem canonical_subtract {c o : ConnSet} (hc : c.Canonical) (ho : o.WF) :
       | none => rfl
       | some op =>
         exfalso
-        have h3 := hi.2 pr
+        obtain ⟨rs, h3, hr1, hr2⟩ := hi.2 pr
         rw [get_mapProtos] at h3
         unfold subEntry at h3
         split at h3
@@ -916,15 +918,15 @@ theorem canonical_subtract {c o : ConnSet} (hc : c.Canonical) (ho : o.WF) :
           split at h3
           · cases h3
           · have e := Option.some.inj h3
-            simp only [PortSet.subtract, PortSet.mk'_true, PortSet.mk.injEq] at e
-            obtain ⟨e1, _, e3⟩ := e
+            subst e
             have hw := ho.2 pr op h4
+            -- a surviving entry lost a number or gained an excluded name
             rcases (PortSet.isEmpty_eq_false_iff op).mp hw.2 with h6 | h6
             · obtain ⟨x, hx⟩ := exists_memL_of_ne_nil hw.1.canon h6
               have := (memL_full x).mpr (hw.1.range hx)
-              rw [← e1, mem_subtract] at this
-              exact this.2 hx
-            · exact foldl_sinsert_ne_nil _ _ (Or.inr h6) e3
+              rw [← hr1] at this
+              exact ((mem_subtract _ _ x).mp this).2 hx
+            · exact foldl_sinsert_ne_nil _ _ (Or.inr h6) hr2
 
 /-! ### `copy` -/
 
@@ -1090,7 +1092,9 @@ theorem containedIn_named {c o : ConnSet} (hc : c.WF) {pr : Proto} {n : String}
         rw [names_of_get hg'] at hno
         exact hno this
 
-theorem allowAll_iff_full {c : ConnSet} (hcan : c.Canonical) (hn : ∀ pr, c.names pr = [])
+/-- the full set is recognised: a canonical set without excluded named ports is in the AllowAll
+form exactly when it denotes the whole range (whatever named ports it holds) -/
+theorem allowAll_iff_full' {c : ConnSet} (hcan : c.Canonical)
     (he : ∀ pr ps, c.get pr = some ps → ps.excluded = []) :
     c.allowAll = true ↔ ∀ pr p, inRange p → c.den pr p := by
   constructor
@@ -1106,25 +1110,59 @@ theorem allowAll_iff_full {c : ConnSet} (hcan : c.Canonical) (hn : ∀ pr, c.nam
         have h1 := h pr 1 (by decide)
         rw [den_of_not_allowAll ha] at h1
         obtain ⟨ps, hg, _⟩ := h1
-        rw [hg]
-        have hnm : ps.named = [] := by rw [← names_of_get hg]; exact hn pr
-        have hex := he pr ps hg
-        have hports : ps.ports = [⟨1, 65535⟩] := by
-          apply eq_full_of_mem (hcan.1.entry hg).canon
-          intro x
-          constructor
-          · exact (hcan.1.entry hg).range
-          · intro hx
-            have h2 := h pr x hx
-            rw [den_of_not_allowAll ha, hg] at h2
-            simpa using h2
-        cases ps
-        simp only at hnm hex hports
-        subst hnm hex hports
-        rfl
+        refine ⟨ps, hg, ?_, he pr ps hg⟩
+        apply eq_full_of_mem (hcan.1.entry hg).canon
+        intro x
+        constructor
+        · exact (hcan.1.entry hg).range
+        · intro hx
+          have h2 := h pr x hx
+          rw [den_of_not_allowAll ha, hg] at h2
+          simpa using h2
       rw [hcan.2] at this
       exact absurd this (by decide)
     · rfl
+
+/-- the earlier statement (the hypothesis on the named ports is no longer used) -/
+theorem allowAll_iff_full {c : ConnSet} (hcan : c.Canonical) (_hn : ∀ pr, c.names pr = [])
+    (he : ∀ pr ps, c.get pr = some ps → ps.excluded = []) :
+    c.allowAll = true ↔ ∀ pr p, inRange p → c.den pr p := allowAll_iff_full' hcan he
+
+/-- a canonical set without excluded named ports that denotes the whole range is `mk' true` -/
+theorem eq_mk_all_of_full {c : ConnSet} (hcan : c.Canonical)
+    (he : ∀ pr ps, c.get pr = some ps → ps.excluded = [])
+    (h : ∀ pr p, inRange p → c.den pr p) : c = mk' true := by
+  have ha : c.allowAll = true := (allowAll_iff_full' hcan he).mpr h
+  have := eq_mk'_of_noProtos (hcan.1.1 ha)
+  rw [ha] at this
+  exact this
+
+/-- `checkIfAll` on three entries with the full range and no excluded named port, whatever named
+ports they hold -/
+theorem checkIfAll_of_full_entries {c : ConnSet} (ha : c.allowAll = false)
+    (h : ∀ pr, ∃ ps, c.get pr = some ps ∧ ps.ports = [⟨1, 65535⟩] ∧ ps.excluded = []) :
+    c.checkIfAll = mk' true := by
+  unfold checkIfAll
+  rw [(isAllWithoutAllowAll_iff c).mpr ⟨ha, h⟩]
+  rfl
+
+/-- `Union` whose result covers the whole range and keeps no excluded named port is
+All Connections, whatever named ports the operands hold (`h0` as in `canonical_union`) -/
+theorem union_eq_all_of_full {c o : ConnSet} (hc : c.WF) (ho : o.WF)
+    (h0 : o.isEmpty = true → c.isAllWithoutAllowAll = false)
+    (he : ∀ pr ps, (c.union o).get pr = some ps → ps.excluded = [])
+    (h : ∀ pr p, inRange p → c.den pr p ∨ o.den pr p) : c.union o = mk' true :=
+  eq_mk_all_of_full (canonical_union hc ho h0) he
+    (fun pr p hp => (den_union hc ho pr p).mpr (h pr p hp))
+
+/-- the same for `AddConnection` -/
+theorem addConnection_eq_all_of_full {c : ConnSet} {ps : PortSet} (pr : Proto) (hc : c.WF)
+    (hp : ps.WF) (ha : c.allowAll = true → ps.isEmpty = true)
+    (he : ∀ pr' qs, (c.addConnection pr ps).get pr' = some qs → qs.excluded = [])
+    (h : ∀ pr' p, inRange p → c.den pr' p ∨ (pr' = pr ∧ memL ps.ports p)) :
+    c.addConnection pr ps = mk' true :=
+  eq_mk_all_of_full (canonical_addConnection pr hc hp ha) he
+    (fun pr' p hp' => (den_addConnection c pr ps pr' p).mpr (h pr' p hp'))
 
 theorem equal_iff_eq (c d : ConnSet) : c.equal d = true ↔ c = d := by
   constructor
